@@ -33,6 +33,34 @@ def pat_variants(p):
     return ["?"]
 
 
+def rule_length(rep):
+    """The transition band the property promises is that of a filter with the `sinc_len` the caller asked for: the length handed to the
+    kernels (after rounding to the SIMD granularity) must never be smaller than the requested one."""
+    import ineq
+    facts = rep.ctx.facts
+    R = "R-C02-length"
+    fn = facts.need_free_fn("asynchro_sinc", "make_interpolator")
+    pname = fn["params"][0]["name"]
+    st = SymExec(facts, None).run(fn)
+    news = [x for x in walk(fn["body"]) if x.get("k") == "call" and is_path(x["f"]) and x["f"]["p"].split("::")[-1] == "new" and len(x["args"]) == 4]
+    if not news:
+        raise ir.AnchorMissing("make_interpolator: no kernel constructor call")
+    alg = Alg(TypeEnv(locals_={pname: "int"}))
+    s = alg.sym(pname)
+    for c in news:
+        a0 = c["args"][0]
+        val = st.locals.get(a0["p"]) if is_path(a0) else a0
+        try:
+            v = alg.conv(val)
+            ok, resid = ineq.prove_ge(v, s, {s: 1})
+        except Exception as ex:     # noqa: BLE001 - not convertible: not proved
+            v, ok, resid = None, False, str(ex)
+        rep.ob(R, c["f"]["p"].split("::")[0].split("<")[0], bool(ok),
+               "length passed to the kernel = %s for a requested sinc_len = %s: must be ≥ the requested length for every request (a shorter filter has a wider "
+               "transition band than calculate_cutoff(sinc_len, window) assumes); relaxed slack %s" % (v, s, resid), loc(fn, c),
+               sample={"kernel_length": str(v)})
+
+
 def rule_window_table(rep):
     facts = rep.ctx.facts
     R = "R-C02-window-table"
@@ -42,41 +70,120 @@ def rule_window_table(rep):
     variants = [v["name"] for v in en["variants"]]
     rep.ob(R, "enum", sorted(variants) == sorted(WINDOWS), "WindowFunction variants %s (table has %s)" % (variants, sorted(WINDOWS)), "src/windows.rs")
     fn = facts.need_free_fn("windows", "make_window")
-    matches = [x for x in walk(fn["body"]) if x.get("k") == "match"]
-    if len(matches) != 2:
-        raise ir.AnchorMissing("make_window: expected two matches (base function, squaring), found %d" % len(matches))
-    base, sq = matches
-    seen = {}
-    for arm in base["arms"]:
-        vs = pat_variants(arm["pat"])
-        callee = None
-        for x in walk(arm["body"]):
-            if x.get("k") == "call" and is_path(x["f"]):
-                callee = x["f"]["p"].split("::")[-1]
-                args = [nbit(a) for a in x["args"]]
-        for v in vs:
-            seen[v] = callee
+    # abstract evaluation of make_window, once per variant: a window value is (base function, length argument, power), where the
+    # element-wise square doubles the power.  Both the "match base, then match squaring" and the "one arm per variant" forms are read.
+    wparam = fn["params"][1]["name"] if len(fn["params"]) == 2 else None
+    npar = fn["params"][0]["name"] if fn["params"] else None
+    if wparam is None:
+        raise ir.AnchorMissing("make_window(npoints, windowfunc)")
+
+    def is_square_closure_body(stmts_or_expr, pname):
+        """`w.iter_mut().for_each(|y| *y = *y * *y)` applied to pname"""
+        x = stmts_or_expr
+        if x.get("k") == "mcall" and x["name"] == "for_each" and x["recv"].get("k") == "mcall" and x["recv"]["name"] == "iter_mut" and is_path(x["recv"]["recv"], pname):
+            cl = x["args"][0]
+            if cl.get("k") == "closure" and len(cl["params"]) == 1:
+                names = ir.pat_names(cl["params"][0])
+                b = cl["body"]
+                if b.get("k") == "block" and len(b["stmts"]) == 1:
+                    b = b["stmts"][0].get("e", b["stmts"][0])
+                return bool(b.get("k") == "assign" and names and nbit(b["l"]) == "*(%s)" % names[0] and nbit(b["r"]) == "(*(%s) * *(%s))" % (names[0], names[0]))
+        return False
+
+    class Unknown(Exception):
+        pass
+
+    def pick_arm(m, variant):
+        if not is_path(m["e"], wparam):
+            raise Unknown("match on `%s`" % show(m["e"]))
+        for arm in m["arms"]:
+            vs = pat_variants(arm["pat"])
+            if variant in vs or "_" in vs:
+                if arm.get("guard") is not None:
+                    raise Unknown("guarded arm")
+                return arm["body"]
+        raise Unknown("no arm for %s" % variant)
+
+    def ev_expr(e, env, variant):
+        k = e.get("k")
+        if k == "path" and e["p"] in env and env[e["p"]][0] == "win":
+            return env[e["p"]]
+        if k == "call" and is_path(e["f"]):
+            name = e["f"]["p"].split("::")[-1]
+            if name in WINDOW_DEFS and len(e["args"]) == 1:
+                return ("win", name, nbit(e["args"][0]), 1)
+            if e["f"]["p"] in env and env[e["f"]["p"]][0] == "sqfn" and len(e["args"]) == 1:
+                w = ev_expr(e["args"][0], env, variant)
+                return ("win", w[1], w[2], w[3] * 2)
+            raise Unknown("call to `%s`" % e["f"]["p"])
+        if k == "match":
+            return ev_expr(pick_arm(e, variant), env, variant)
+        if k == "block":
+            return ev_block(e, dict(env), variant)
+        if k == "paren":
+            return ev_expr(e["e"], env, variant)
+        raise Unknown("expression `%s`" % show(e)[:60])
+
+    def ev_stmt_effect(e, env, variant):
+        """statement executed for its effect on a window variable"""
+        k = e.get("k")
+        if k == "match":
+            return ev_stmt_effect(pick_arm(e, variant), env, variant)
+        if k == "block":
+            for s in e["stmts"]:
+                ev_stmt_effect(s.get("e", s) if s["k"] in ("semi", "expr") else s, env, variant)
+            return
+        if k == "mcall" and x_is_square(e, env):
+            return
+        if k == "tuple" and not e.get("elems"):
+            return
+        if k == "if":
+            raise Unknown("conditional on `%s`" % show(e["c"])[:40])
+        raise Unknown("statement `%s`" % show(e)[:60])
+
+    def x_is_square(e, env):
+        for name, v in env.items():
+            if v[0] == "win" and is_square_closure_body(e, name):
+                env[name] = ("win", v[1], v[2], v[3] * 2)
+                return True
+        return False
+
+    def ev_block(blk, env, variant):
+        stmts = blk["stmts"]
+        for i, s in enumerate(stmts):
+            if s["k"] == "let":
+                if s["pat"]["k"] != "pident" or s.get("init") is None:
+                    raise Unknown("let pattern")
+                init = s["init"]
+                if init.get("k") == "closure" and len(init["params"]) == 1:
+                    pn = ir.pat_names(init["params"][0])
+                    b = init["body"]
+                    if b.get("k") == "block" and len(b["stmts"]) == 2 and pn:
+                        first = b["stmts"][0].get("e", b["stmts"][0])
+                        last = b["stmts"][1].get("e", b["stmts"][1])
+                        if is_square_closure_body(first, pn[0]) and is_path(last, pn[0]):
+                            env[s["pat"]["name"]] = ("sqfn",)
+                            continue
+                    raise Unknown("closure `%s`" % s["pat"]["name"])
+                env[s["pat"]["name"]] = ev_expr(init, env, variant)
+                continue
+            if s["k"] == "item":
+                continue
+            e = s["e"]
+            if s["k"] == "expr" and i == len(stmts) - 1:
+                return ev_expr(e, env, variant)
+            ev_stmt_effect(e, env, variant)
+        raise Unknown("no value")
+
     for v, (bf, squared) in WINDOWS.items():
-        rep.ob(R, "base/%s" % v, seen.get(v) == bf, "variant %s uses base window `%s` (must be %s); a wildcard arm must not swallow variants" % (v, seen.get(v), bf), loc(fn, base),
-               sample={"variant": v, "base": seen.get(v)})
-    rep.ob(R, "base/no-wildcard", "_" not in seen, "first match must list every variant explicitly", loc(fn, base))
-    sq_vars = set()
-    sq_ok = False
-    for arm in sq["arms"]:
-        vs = pat_variants(arm["pat"])
-        fp = None
-        for x in walk(arm["body"]):
-            if x.get("k") == "mcall" and x["name"] == "for_each":
-                cl = x["args"][0]
-                if cl.get("k") == "closure":
-                    names = ir.pat_names(cl["params"][0])
-                    b = cl["body"]
-                    if b.get("k") == "assign" and names and nbit(b["l"]) == "*(%s)" % names[0] and nbit(b["r"]) == "(*(%s) * *(%s))" % (names[0], names[0]):
-                        fp = True
-        if fp:
-            sq_vars.update(vs)
-    want_sq = {v for v, (_, s) in WINDOWS.items() if s}
-    rep.ob(R, "squared", sq_vars == want_sq, "variants squared element-wise: %s (must be exactly %s)" % (sorted(sq_vars), sorted(want_sq)), loc(fn, sq), sample={"squared": sorted(sq_vars)})
+        try:
+            got = ev_block(fn["body"], {}, v)
+            ok = got == ("win", bf, npar, 2 if squared else 1)
+            txt = "make_window(%s, %s) = %s(%s)^%d" % (npar, v, got[1], got[2], got[3])
+        except Unknown as ex:
+            ok, got, txt = False, None, "make_window cannot be evaluated for %s: %s" % (v, ex)
+        rep.ob(R, "base/%s" % v, ok, "%s (must be %s(%s)^%d)" % (txt, bf, npar, 2 if squared else 1), loc(fn),
+               sample={"variant": v, "value": list(got) if got else None})
     # window definitions
     for wname, coeffs in WINDOW_DEFS.items():
         wf = facts.need_free_fn("windows", wname)
@@ -182,10 +289,13 @@ def run(rep):
     rep.guarded("R-C15-lanes", lambda r: C15.run_all_kernels(r, "R-C15-lanes"))
     rep.floor("R-C02-cutoff-upper", 2)
     rep.floor("R-C02-fft", 4)
-    rep.floor("R-C02-window-table", 1 + 6 + 1 + 1 + 6 + 2)
+    rep.guarded("R-C02-length", rule_length)
+    rep.floor("R-C02-length", 3)
+    rep.clause("R-C02-length", "the filter length handed to every kernel constructor is ≥ the requested sinc_len (rounding to the SIMD granularity goes up)")
+    rep.floor("R-C02-window-table", 1 + 6 + 6 + 2)
     rep.floor("R-C01-grid", 6)
     rep.floor("R-C15-dispatch", 20)
-    rep.floor("R-C15-lanes", 55)
+    rep.floor("R-C15-lanes", 61)
     rep.clause("R-C02-cutoff-upper", "the cutoff handed to every kernel constructor is at most f_cutoff when ratio ≥ 1 and at most f_cutoff·ratio when down-sampling (removing the ratio scaling → aliasing)")
     rep.clause("R-C02-fft", "FFT unit: cutoff = calculate_cutoff(min(in,out))·min(1,out/in); spectrum truncated to min(in+1,out) bins and zero-filled")
     rep.clause("R-C02-window-table", "each WindowFunction variant selects the base window named after it, X2 variants (and only those) are squared, no wildcard swallows a variant; the three base windows equal their textbook definitions; calculate_cutoff covers all variants with the documented closed form")
